@@ -32,7 +32,18 @@ type scriptConn struct {
 	yield      bool // let other goroutines run after every Write (concurrent senders)
 	failAt     int  // >= 0: the Write call that crosses this offset writes up to it and fails (once)
 	failed     bool
+	stallAt    int // >= 0: the Read that finds this many bytes consumed returns a timeout (once): the peer stalled there
+	stallDone  bool
 }
+
+// readTimeout is what a net.Conn returns when the read deadline passes.
+type readTimeout struct{}
+
+func (readTimeout) Error() string   { return "read tcp 127.0.0.1:1->127.0.0.1:2: i/o timeout" }
+func (readTimeout) Timeout() bool   { return true }
+func (readTimeout) Temporary() bool { return true }
+
+var _ net.Error = readTimeout{}
 
 // writeTimeout is what a net.Conn returns when the write deadline passes
 // after part of the buffer has gone out.
@@ -49,7 +60,7 @@ func newScriptConn(segs [][]byte, eof bool) *scriptConn {
 	for i, s := range segs {
 		cp[i] = append([]byte{}, s...)
 	}
-	return &scriptConn{segs: cp, eof: eof, blocked: make(chan struct{}), done: make(chan struct{}), failAt: -1}
+	return &scriptConn{segs: cp, eof: eof, blocked: make(chan struct{}), done: make(chan struct{}), failAt: -1, stallAt: -1}
 }
 
 func (c *scriptConn) Read(p []byte) (int, error) {
@@ -58,6 +69,11 @@ func (c *scriptConn) Read(p []byte) (int, error) {
 		if c.closed {
 			c.mu.Unlock()
 			return 0, errors.New("read: use of closed network connection")
+		}
+		if c.stallAt >= 0 && !c.stallDone && c.consumed == c.stallAt {
+			c.stallDone = true
+			c.mu.Unlock()
+			return 0, readTimeout{}
 		}
 		for len(c.segs) > 0 && len(c.segs[0]) == 0 {
 			c.segs = c.segs[1:]
